@@ -15,7 +15,7 @@ func init() {
 	register(&Property{
 		ID:          "C20",
 		NeedSSA:     true,
-		Decided:     "Structural necessary conditions for history independence of the codecs: (dst) in every Encode/Decode method under compress/ the reusable output buffer is only truncated (dst[:0]), measured with cap(), passed to a helper obeying the same rule or to a listed library routine that treats it as scratch, or returned — its previous length and content are never observed and it is never re-sliced up to its old capacity; (pool) an object taken from a pool is not used after it was put back, an object that received Close is put back only after a Reset, the reset closure given to Pool.Get re-targets the stream, and a reader whose Reset failed is dropped instead of pooled; (stateless) Encode/Decode of every compress.Codec implementation write no field of the codec value (shared by all writers and readers) other than its pools; (tables) each entry of the codec table is the implementation whose CompressionCodec() returns its key. (result) every caller of Codec.Encode/Decode (and of the pooled Compressor/Decompressor) that passes a destination buffer takes the returned slice on every non-failing path (returns, stores, passes it on, or compares it by identity with the buffer); (pool, cont.) a function that returns memory held in a field of a pooled object replaces that field before the object is put back. (retry) from the failure edge of a fallible call in a loop some path leaves the loop without passing the call again; (pool, cont.) the decompressor pools a reader only on the nil edges of both its Reset error and the function's own error, and panics of the functions handed to Pool.Get are recovered by a deferred function. (bound) every buffer that reaches the destination argument of a block compressor (CompressBlock) is sized by the library's bound: made with a length computed from CompressBlockBound, returned by a module helper that was given that bound, or the caller's buffer re-sliced on the false edge of `cap(buf) < n` with n computed from the bound.",
+		Decided:     "Structural necessary conditions for history independence of the codecs: (dst) in every Encode/Decode method under compress/ the reusable output buffer is only truncated (dst[:0]), measured with cap(), passed to a helper obeying the same rule or to a listed library routine that treats it as scratch, or returned — its previous length and content are never observed and it is never re-sliced up to its old capacity; (pool) an object taken from a pool is not used after it was put back, an object that received Close is put back only after a Reset, the reset closure given to Pool.Get re-targets the stream, and a reader whose Reset failed is dropped instead of pooled; (stateless) Encode/Decode of every compress.Codec implementation write no field of the codec value (shared by all writers and readers) other than its pools; (tables) each entry of the codec table is the implementation whose CompressionCodec() returns its key. (result) every caller of Codec.Encode/Decode (and of the pooled Compressor/Decompressor) that passes a destination buffer takes the returned slice on every non-failing path (returns, stores, passes it on, or compares it by identity with the buffer); (pool, cont.) a function that returns memory held in a field of a pooled object replaces that field before the object is put back. (retry) from the failure edge of a fallible call in a loop some path leaves the loop without passing the call again; (pool, cont.) the decompressor pools a reader only on the nil edges of both its Reset error and the function's own error, and panics of the functions handed to Pool.Get are recovered by a deferred function. (bound) every buffer that reaches the destination argument of a block compressor (CompressBlock) is sized by the library's bound: made with a length computed from CompressBlockBound, returned by a module helper that was given that bound, or the caller's buffer re-sliced on the false edge of `cap(buf) < n` with n computed from the bound. (readtoeof) a function of the compress packages that reads a decompressing reader in a loop returns from it only on the non-nil edge of a test of the error that Read returned.",
 		NotDecided:  "losslessness; the behaviour of the third-party compressors; sizing arithmetic of output buffers (for instance the worst-case bound an LZ4 block needs).",
 		Assumptions: []string{"the listed library routines (snappy, lz4, zstd EncodeAll/DecodeAll) treat dst as scratch per their documentation"},
 		Run:         runC20,
@@ -30,6 +30,7 @@ func runC20(c *Ctx) {
 	runRetryRule(c, "C20.retry", func(fn *ssa.Function) bool { return inModule(fn) }, 60)
 	c20Stateless(c)
 	c20Bound(c)
+	c20ReadToEOF(c)
 	runTableRule(c, "C20.tables", "compressionCodecs", "CompressionCodec", 6)
 }
 
@@ -718,4 +719,84 @@ func c20Bound(c *Ctx) {
 		})
 	}
 	c.Min(rule, 2)
+}
+
+// c20ReadToEOF — a streaming decoder has produced everything only when its
+// reader says so. A function that reads a decompressing reader in a loop
+// returns from that loop only where the Read reported an error (io.EOF
+// included): every return reachable after the Read is dominated by the
+// non-nil edge of a test of the error that Read returned. A shortcut that
+// returns because the buffer is full, or the input consumed, truncates the
+// output of readers that buffer their input.
+func c20ReadToEOF(c *Ctx) {
+	rule := "C20.readtoeof"
+	p := c.P
+	n := 0
+	for _, fn := range p.ModuleSSAFuncs() {
+		if fn.Origin() != nil || fn.Blocks == nil || fn.Parent() != nil || !strings.Contains(fnPkgPath(fn), "/compress") {
+			continue
+		}
+		for _, b := range fn.Blocks {
+			for _, ins := range b.Instrs {
+				call, ok := ins.(*ssa.Call)
+				if !ok || !call.Call.IsInvoke() || call.Call.Method.Name() != "Read" {
+					continue
+				}
+				if loopHeaderOf(b) == nil {
+					continue
+				}
+				// the blocks where the error of this Read is known to be non-nil
+				var errEdges []*ssa.BasicBlock
+				for _, r := range *call.Referrers() {
+					ex, ok := r.(*ssa.Extract)
+					if !ok || !isErrorType(ex.Type()) {
+						continue
+					}
+					for _, b2 := range fn.Blocks {
+						ifi, ok := b2.Instrs[len(b2.Instrs)-1].(*ssa.If)
+						if !ok {
+							continue
+						}
+						bo, ok := ifi.Cond.(*ssa.BinOp)
+						if !ok || !(isNilConst(bo.X) || isNilConst(bo.Y)) {
+							continue
+						}
+						other := bo.X
+						if isNilConst(bo.X) {
+							other = bo.Y
+						}
+						if other != ssa.Value(ex) {
+							continue
+						}
+						switch bo.Op {
+						case token.NEQ:
+							errEdges = append(errEdges, b2.Succs[0])
+						case token.EQL:
+							errEdges = append(errEdges, b2.Succs[1])
+						}
+					}
+				}
+				n++
+				var bad []string
+				for rb := range reachableAvoidingSet(b, nil, nil) {
+					ret, ok := rb.Instrs[len(rb.Instrs)-1].(*ssa.Return)
+					if !ok {
+						continue
+					}
+					dominated := false
+					for _, e := range errEdges {
+						if len(e.Preds) == 1 && e.Dominates(rb) {
+							dominated = true
+						}
+					}
+					if !dominated {
+						bad = append(bad, p.Pos(ret.Pos()))
+					}
+				}
+				sort.Strings(bad)
+				c.Check(rule, FuncKey(fn)+" leaves its read loop only when the reader reports the end", call.Pos(), len(bad) == 0, FuncKey(fn)+" returns at "+strings.Join(bad, ", ")+" without the reader having reported io.EOF or an error: a reader that buffers its input (brotli) has not produced all of its output yet and the result is silently truncated")
+			}
+		}
+	}
+	c.Min(rule, 1)
 }
